@@ -28,9 +28,27 @@ undeclared keyword, or positional arguments beyond the declared names + the one 
 a refused call must raise, must not enter the task and must leave the job WAITING; the arguments the task
 receives must be those passed (positional / keyword / preset).
 
+Two extreme schedules of the `execute_async` call itself are forced: lock-step (the worker does nothing before the
+call has returned: the task blocks on its first command) and "instant" (`run_prefilled`: every task step is queued
+beforehand and the interpreter's switch interval is raised during the call, so the freshly started worker runs the
+task to its end before `Thread.start()` returns to `execute_async`; possible for every history whose in-flight caller
+actions all happen inside the user's callback).  A final state written by the worker must survive whatever
+`execute_async` still does after starting the thread.
+
+Several jobs per process.  Job histories are also executed in GROUPS (`handle_group`): 2..4 jobs created one after the
+other in the same process, or the later ones created and executed completely while the first is in flight / between two
+of its events; most of these jobs are constructed the short way (`delta_parameters` omitted or None, names / mapping
+function omitted when empty) with different declared names and different numbers of arguments.  Each job is compared
+with ITS OWN single-job model history and judged by the direct oracle (which also refuses any task parameter that this
+job neither declares nor was passed): a job must behave as if it were alone (Lean: `job_independent_of_other_jobs`,
+`fresh_job_unaffected_by_process_history`).  A failure seen in this process is re-run in FRESH interpreters
+(`fresh_run`): alone -> ordinary report; only after/while other jobs -> signature `…-after-other-jobs` with the
+minimised group as replay; not reproducible -> `depends-on-process-history` (no-failing-input-found).
+
 Named residue: the atomic steps are whole API calls and whole task steps.  Races *inside* one Python API
-call (bytecode interleavings on the shared JobStatus, e.g. a status query between `start_run()` and
-`Thread.start()` in `execute_async`) cannot be exhibited by this harness or by the model.
+call other than the two forced schedules above (bytecode interleavings on the shared JobStatus, e.g. a status query
+between `start_run()` and `Thread.start()` in `execute_async`, a worker that ends between two statements of
+`execute_async`) cannot be exhibited by this harness or by the model.
 """
 from __future__ import annotations
 
